@@ -18,7 +18,7 @@ TIME = {'quick': 100, 'thorough': 800}
 RULE = ('histories: action kind (snapshot/log/metric/span) x fire_count text x fire_period text x window x up to 40 '
         'hits with scripted clock (boundary spacings: exactly period, +-1 ns, backwards steps) and per-hit condition '
         '(true/false/raising) and, in 30% of the histories, unrelated configuration changes (register/unregister of another tracepoint through the real TracepointConfigService) between hits, driven through the real TriggerHandler.trace_call; a labelled stream in which the service re-sends the tracepoint in a later UPDATE (compared with the per-installation run of the model; the reading of the statement is the known finding C04/update-resets-count); one tracepoint yielding sibling actions (snapshot+metrics+span, metric processor failing part-way: the hit still counts) judged per action; several tracepoints with different limits on one line (merged into one trigger or separate triggers) judged per tracepoint; schedules: all 20 interleavings of '
-        '2 threads x (check, process, record) forced with gates inside the condition and a watch, plus 3-4 thread schedules (mutually exclusive ones that are not plain blocks: unstarted / unfinished threads, extra entries; and random interleavings), every thread with its own clock value (not in arrival order, boundary spacings around the period) and condition outcome, half of them with the clock READ as a gated region of its own; the time stamps of the collections are compared with the timed concurrent model (in order when check…record stay mutually exclusive, as a multiset otherwise) and judged against the sequential reference; lifecycle: one tracepoint from the service or registered in code under operation sequences (UPDATE responses with/without it through the real convert_response on protobuf messages, NO_CHANGE, other registrations, register/unregister) judged per installation by a reference written from the statement (an UPDATE that re-sends an installed service tracepoint is an instance of the known finding C04/update-resets-count only when the reset changes what may be collected; re-deliveries before the first hit are judged fully), 40% of them as ONE tracepoint with several actions (snapshot + two metrics [+ span]) judged and compared with the model per ACTION, 60% of the service ones with DIFFERENT budgets inside one trigger (the metric/span actions belong to a second tracepoint of the same line with its own fire_count/fire_period); the driver also compares, per single-action lifecycle case, the hand-written installation model with the regenerated TRANSLATION of the configuration service (ages_svc vs ages_model: model against model, NOT against /repo — the /repo comparison is `collected`). A case is '
+        '2 threads x (check, process, record) forced with gates inside the condition and a watch, plus 3-4 thread schedules (mutually exclusive ones that are not plain blocks: unstarted / unfinished threads, extra entries; and random interleavings), every thread with its own clock value (not in arrival order, boundary spacings around the period) and condition outcome, half of them with the clock READ as a gated region of its own; the time stamps of the collections are compared with the timed concurrent model (in order when check…record stay mutually exclusive, as a multiset otherwise) and judged against the sequential reference; lifecycle: one tracepoint from the service or registered in code under operation sequences (UPDATE responses with/without it through the real convert_response on protobuf messages, NO_CHANGE, other registrations, register/unregister) judged per installation by a reference written from the statement (an UPDATE that re-sends an installed service tracepoint is an instance of the known finding C04/update-resets-count only when the reset changes what may be collected; re-deliveries before the first hit are judged fully), 40% of them as ONE tracepoint with several actions (snapshot + two metrics [+ span]) judged and compared with the model per ACTION, 60% of the service ones with DIFFERENT budgets inside one trigger (the metric/span actions belong to a second tracepoint of the same line with its own fire_count/fire_period); the driver also compares, per single-action lifecycle case, the hand-written installation model with the regenerated TRANSLATION of the configuration service (ages_svc vs ages_model: model against model, NOT against /repo — the /repo comparison is `collected`). scale: a finite fire_count of 1025 / 1500 / 2048 / 5000 with 1.2x as many permitted hits (run-length form: n hits `step` ns apart from t0, also from 2^63), through the real LocationAction (can_trigger / record_triggered) or through trace_call with a log / metric action, totals compared with the model (op runScale) and judged: exactly fire_count collections; bounds: fire_count / fire_period / time stamps at 2^31, 2^32, 2^63, 2^64 (period*10^6 beyond 2^63 ns) as ordinary histories. A case is '
         'non-trivial when at least one hit is rejected by a limit and at least one collects (or, for schedules, when '
         'the threads overlap). Distinct = distinct canonical JSON of the case.')
 TRUSTED = ['threading.Lock/Event, CPython GIL atomicity of one attribute store (regions check/process/record)',
@@ -66,10 +66,12 @@ def reference(case):
 
 
 # --------------------------------------------------------------------------------------- generation
-def gen_history(rng, kind=None):
+def gen_history(rng, kind=None, fixed=None):
     cfg = {}
     fc = rng.choice(COUNTS)
     fp = rng.choice(PERIODS)
+    if fixed:
+        fc, fp = fixed[0], fixed[1]
     if fc is not None:
         cfg['fire_count'] = fc
     if fp is not None:
@@ -77,7 +79,7 @@ def gen_history(rng, kind=None):
     per = ref_int(fp, 1000)
     step = max(abs(per), 1) * 1_000_000
     n = rng.randint(1, 40)
-    ts = rng.randint(1, 10 ** 6)
+    ts = rng.randint(1, 10 ** 6) if not fixed else fixed[2]
     hits = []
     for _ in range(n):
         r = rng.random()
@@ -178,6 +180,28 @@ def gen_schedule3(rng):
     return case
 
 
+BOUND_COUNTS = ['2147483647', '2147483648', '4294967296', '9223372036854775807', '9223372036854775808', '1024', '1025']
+BOUND_PERIODS = ['2147483648', '4294967296', '9223372036855', '9223372036854775808', '18446744073709552', '0', '1']
+BOUND_BASES = [2 ** 31 - 5, 2 ** 32 - 5, 2 ** 63 - 5, 2 ** 64 - 5, 2 ** 63 + 10 ** 15]
+
+
+def gen_scale(rng):
+    """only at scale: a finite fire_count ABOVE a thousand must still be reached, and not before"""
+    fc = rng.choice([1025, 1025, 1500, 2048, 5000])
+    return {'kind': 'scale', 'cfg': {'fire_count': str(fc), 'fire_period': rng.choice(['0', '0', '1'])},
+            'n': int(fc * 1.2) + rng.randint(0, 7), 't0': rng.choice([1, 10 ** 9, 2 ** 63]),
+            'step': rng.choice([1_000_000, 1_000_001, 5_000_000]),
+            'action': rng.choice(['log', 'metric']),
+            'through': 'handler' if fc <= 1500 and rng.random() < 0.5 else 'action'}
+
+
+def gen_bounds(rng):
+    """count / period / time stamps at the numeric boundaries (2^31, 2^32, 2^63, 2^64; period*10^6 beyond 2^63 ns)"""
+    c = gen_history(rng, fixed=(rng.choice(BOUND_COUNTS + [None, '-1', '2']), rng.choice(BOUND_PERIODS), rng.choice(BOUND_BASES)))
+    c['hits'] = [h for h in c['hits'] if 'op' not in h][:12]
+    return c
+
+
 def gen_lifecycle(rng):
     """one tracepoint (from the service or registered in code) among configuration changes"""
     base = gen_history(rng)
@@ -251,6 +275,10 @@ def gen(rng, tier):
             yield gen_schedule3(rng)
         elif k % 12 in (2, 8):
             yield gen_lifecycle(rng)
+        elif k % 120 in (10, 70):
+            yield gen_scale(rng)
+        elif k % 24 == 22:
+            yield gen_bounds(rng)
         elif k % 12 == 3:
             # several tracepoints on one line, each with its own limits (merged into one trigger, or separate triggers)
             a, b = gen_history(rng, 'snapshot'), gen_history(rng, 'snapshot')
@@ -306,6 +334,11 @@ def corpus():
          'hits': [{'ts': 0, 'cond': 'true'}, {'ts': 5, 'cond': 'true'}], 'no_oracle': True},
         {'kind': 'schedule', 'cfg': {'fire_count': '1', 'fire_period': '1000'}, 'tss': [10 ** 9, 10 ** 9 + 1],
          'sched': [0, 0, 0, 1, 1, 1]},
+        # seeded C04-M: a fire_count above 1024 is reached exactly
+        {'kind': 'scale', 'cfg': {'fire_count': '1025', 'fire_period': '0'}, 'n': 1100, 't0': 1, 'step': 1_000_000,
+         'action': 'log', 'through': 'action'},
+        {'kind': 'scale', 'cfg': {'fire_count': '1030', 'fire_period': '1'}, 'n': 1040, 't0': 2 ** 63, 'step': 1_000_000,
+         'action': 'log', 'through': 'handler'},
         # a registered tracepoint keeps its limits across UPDATE responses; unregistering and registering again starts afresh
         {'kind': 'lifecycle', 'origin': 'code', 'action': 'snapshot', 'cfg': {'fire_count': '1', 'fire_period': '0'},
          'ops': [{'op': 'hit', 'ts': 5, 'cond': 'true'}, {'op': 'register'}, {'op': 'hit', 'ts': 10, 'cond': 'true'},
@@ -787,7 +820,47 @@ def resent_while_installed(case):
     return False
 
 
+def run_scale(case):
+    """a long history: through the real LocationAction (can_trigger / record_triggered as ActionContext calls them) or
+    through TriggerHandler.trace_call with a cheap action (log / metric); only totals are kept"""
+    rig = Rig(metric=True)
+    try:
+        trig = make_action(rig, {'cfg': case['cfg'], 'action': case['action'], 'via': 'args'})
+        n, t0, step = case['n'], case['t0'], case['step']
+        count, first, last, rejected_at = 0, None, None, None
+        try:
+            if case['through'] == 'handler':
+                rig.install_via_service([trig])
+                loc = {'cond': lambda: True, 'x': 1}
+                for k in range(n):
+                    rig.clock = t0 + k * step
+                    before = rig.effect_count()
+                    rig.handler.trace_call(MockFrame('/app/host.py', 'fn', 7, loc), 'line', None)
+                    if rig.effect_count() > before:
+                        count, last = count + 1, rig.clock
+                        first = rig.clock if first is None else first
+                    elif rejected_at is None:
+                        rejected_at = k
+            else:
+                act = trig.actions[0]
+                for k in range(n):
+                    ts = t0 + k * step
+                    if act.can_trigger(ts):
+                        act.record_triggered(ts)
+                        count, last = count + 1, ts
+                        first = ts if first is None else first
+                    elif rejected_at is None:
+                        rejected_at = k
+        except BaseException as e:  # noqa: B902
+            return {'raised': f'{type(e).__name__}: {e}', 'count': count}
+        return {'count': count, 'first': first or 0, 'last': last or 0, 'rejected_at': rejected_at}
+    finally:
+        rig.close()
+
+
 def run_impl(case):
+    if case['kind'] == 'scale':
+        return run_scale(case)
     if case['kind'] == 'lifecycle':
         return run_lifecycle(case)
     if case['kind'] == 'schedule':
@@ -835,6 +908,18 @@ def oracle(case, obs):
     if case.get('no_oracle'):
         return []
     v = []
+    if case['kind'] == 'scale':
+        if 'raised' in obs:
+            return ['the agent raised: ' + obs['raised']]
+        cnt, per = ref_int(case['cfg'].get('fire_count'), 1), ref_int(case['cfg'].get('fire_period'), 1000)
+        # the hits are `step` ns apart with step >= period: every hit is permitted until the count is used up
+        assert case['step'] >= per * 1_000_000
+        want = case['n'] if cnt == -1 else min(max(cnt, 0), case['n'])
+        if obs['count'] != want:
+            v.append(f'{obs["count"]} collections over {case["n"]} permitted hits with fire_count={cnt} (fire_period={per} ms, '
+                     f'hits {case["step"]} ns apart, through the {case["through"]}): exactly {want} are permitted '
+                     f'(first rejected hit: #{obs.get("rejected_at")})')
+        return v
     if case['kind'] == 'lifecycle':
         if 'raised' in obs:
             return ['the agent raised: ' + obs['raised']]
@@ -927,7 +1012,7 @@ def oracle(case, obs):
 
 
 def known_finding(case, obs):
-    if case['kind'] in ('multi', 'siblings'):
+    if case['kind'] in ('multi', 'siblings', 'scale'):
         return None
     if case['kind'] == 'lifecycle':
         # an instance of the finding = a re-delivery whose reset of the limits changes what may be collected
@@ -945,6 +1030,8 @@ def known_finding(case, obs):
 
 
 def model_request(case, obs):
+    if case['kind'] == 'scale':
+        return {'op': 'runScale', 'cfg': case['cfg'], 'n': case['n'], 't0': case['t0'], 'step': case['step']}
     if case['kind'] == 'lifecycle' and case.get('delayed'):
         return {'op': 'opsD', 'origin': case['origin'], 'cfg': case['cfg'],
                 'ops': [dict(o, cond=o['cond'] == 'true') if o['op'] == 'hit' else o for o in case['ops']]}
@@ -997,6 +1084,8 @@ def compare(case, obs, resp):
         if sorted(map(tuple, resp['collected'])) != sorted(map(tuple, got)):
             return [f'collected per action: model {resp["collected"]} vs implementation {obs["collected"]}']
         return []
+    if case['kind'] == 'scale':
+        return [f'{f}: model {resp[f]} vs implementation {obs[f]}' for f in ('count', 'first', 'last') if resp[f] != obs[f]]
     if case['kind'] == 'lifecycle' and case.get('delayed'):
         d = []
         if resp['at_once'] != handed_over_at_once(case):
@@ -1032,6 +1121,8 @@ def compare(case, obs, resp):
 
 
 def label(case, obs):
+    if case['kind'] == 'scale':
+        return 'scale/%s/%s/count-%s' % (case['through'], case['action'], case['cfg']['fire_count'])
     if case['kind'] == 'lifecycle':
         kinds = {o['op'] + ('+' if o.get('present') else '-') if o['op'] == 'update' else o['op'] for o in case['ops']}
         kinds.discard('hit')
@@ -1059,6 +1150,8 @@ def label(case, obs):
 
 
 def nontrivial(case, obs):
+    if case['kind'] == 'scale':
+        return 0 < obs.get('count', 0) < case['n']
     if case['kind'] == 'lifecycle':
         hits = [o for o in case['ops'] if o['op'] == 'hit' and o['cond'] == 'true']
         got = obs.get('collected', [])
@@ -1077,6 +1170,14 @@ def nontrivial(case, obs):
 
 
 def shrink(case):
+    if case['kind'] == 'scale':
+        fc = ref_int(case['cfg'].get('fire_count'), 1)
+        for n2 in (fc + 1, fc + 10):
+            if fc < n2 < case['n']:
+                yield dict(case, n=n2)
+        if case['through'] == 'handler':
+            yield dict(case, through='action')
+        return
     if case['kind'] == 'lifecycle':
         ops = case['ops']
         for i in range(len(ops)):
